@@ -213,7 +213,9 @@ func (tt *Txs) ReadFrom(r io.Reader) (int64, error) {
 		return bytesRead, err
 	}
 
-	*tt = make([]*Tx, txCount)
+	// The count is untrusted: the list grows with the transactions that are
+	// actually read.
+	*tt = make([]*Tx, 0)
 
 	for i := uint64(0); i < uint64(txCount); i++ {
 		tx := new(Tx)
@@ -223,7 +225,7 @@ func (tt *Txs) ReadFrom(r io.Reader) (int64, error) {
 			return bytesRead, err
 		}
 
-		(*tt)[i] = tx
+		*tt = append(*tt, tx)
 	}
 
 	return bytesRead, nil
